@@ -289,6 +289,8 @@ fn run(prop_id: &str, tier: &str) -> i32 {
                         }),
                         None => inconclusive.push(format!("the python leg {} ended abnormally ({:?})", w, s)),
                     }
+                } else if prop_id == "C01" && hang.as_ref().map(|h| h["oracle_slow"].as_bool().unwrap_or(false)).unwrap_or(false) {
+                    inconclusive.push(format!("worker {}: the check itself was too slow on one case (not the code under test): {}", name, hang.as_ref().and_then(|h| h["case_text"].as_str()).unwrap_or("").chars().take(300).collect::<String>()));
                 } else if prop_id == "C01" {
                     if let Some(h) = hang {
                         findings.push(Finding { sub: h["sub"].as_str().unwrap_or("").into(), case_text: h["case_text"].as_str().unwrap_or("null").to_string(), msg: h["msg"].as_str().unwrap_or("hang").into(), profile: profile.into() });
